@@ -3,8 +3,8 @@
    part of BaseReactor._patcher) and chython/reactor/reactor.py:fix_mapping_overlap. *)
 From Coq Require Import ZArith List Bool Permutation.
 From Model Require Import PyBase Graph Reactor ReactorStage ReactorQueue ReactorPrepared Stereo.
-From Gen Require Import ReactorShape ReactorBody.
-From Proofs Require Import ReactorShapeProofs ReactorProofs ReactorExt ReactorEquiv ReactorCompose StereoProofs ReactorStereo ReactorStereo2 ReactorQueueProofs ReactorQueueComplete ReactorStageEquiv ReactorStates ReactorPreparedProofs ReactorBodyTie ReactorBodyTie2 ReactorBodyTie3 ReactorBodyTie4 ReactorBodyTie5.
+From Gen Require Import ReactorShape ReactorBody ReactorInit.
+From Proofs Require Import ReactorShapeProofs ReactorProofs ReactorExt ReactorEquiv ReactorCompose StereoProofs ReactorStereo ReactorStereo2 ReactorQueueProofs ReactorQueueComplete ReactorStageEquiv ReactorStates ReactorPreparedProofs ReactorBodyTie ReactorBodyTie2 ReactorBodyTie3 ReactorBodyTie4 ReactorBodyTie5 ReactorInitTie.
 Import ListNotations.
 Open Scope Z_scope.
 
@@ -931,3 +931,69 @@ Theorem C16_translated_patcher_rbonds_example :
   g_patcher_rbonds [(1, [(2, mkBond 2 None)])] [] [(1, 5)] [(5, [])] [] = Err KeyError.
 Proof. exact g_patcher_rbonds_example. Qed.
 Print Assumptions C16_translated_patcher_rbonds_example.
+
+(* ====================================================================================================
+   round 5: Gen.ReactorInit (tools/gen_reactorinit.py, regenerated from base.py / transformer.py / reactor.py on every run):
+   the expression assigned to self._to_delete, the fields BaseReactor.__init__ fills, the argument lists of the
+   super().__init__ calls and the tail of _patcher that reads the flags.
+   ==================================================================================================== *)
+(* the translated _to_delete expression is, for ALL inputs, the duplicate-free list (set) of the hand-written to_delete_of ... *)
+Theorem C16_translated_to_delete_is_model : forall pattern replacement delete_atoms,
+  g_to_delete pattern replacement delete_atoms = nodup Z.eq_dec (to_delete_of pattern replacement delete_atoms).
+Proof. exact g_to_delete_is_model. Qed.
+Print Assumptions C16_translated_to_delete_is_model.
+
+(* ... and literally to_delete_of when the pattern atoms have different numbers (they are the keys of a dict) *)
+Theorem C16_translated_to_delete_is_model_dict : forall pattern replacement delete_atoms,
+  NoDup (keys pattern) -> g_to_delete pattern replacement delete_atoms = to_delete_of pattern replacement delete_atoms.
+Proof. exact g_to_delete_is_model_dict. Qed.
+Print Assumptions C16_translated_to_delete_is_model_dict.
+
+(* Transformer(pattern, replacement, delete_atoms, automorphism_filter, fix_aromatic_rings, fix_tautomers, copy_metadata): the
+   replacement is what _patcher patches in, fix_aromatic_rings decides kekule/thiele, fix_tautomers is what thiele gets, and
+   _to_delete is computed from (pattern, replacement, delete_atoms) *)
+Theorem C16_transformer_wiring : forall (A : Type) (u : list A -> A) (pattern replacement : A)
+    (delete_atoms automorphism_filter fix_aromatic_rings fix_tautomers copy_metadata : bool),
+  wiring (g_transformer_super u pattern replacement delete_atoms automorphism_filter fix_aromatic_rings fix_tautomers copy_metadata) =
+    (replacement, (if fix_aromatic_rings then KekuleThenThiele fix_tautomers else OnlyFixStereo), (pattern, replacement, delete_atoms)).
+Proof. exact transformer_wiring. Qed.
+Print Assumptions C16_transformer_wiring.
+
+(* Reactor(patterns, products, delete_atoms=, one_shot=, polymerise_limit=, automorphism_filter=, fix_aromatic_rings=, fix_tautomers=):
+   the same with the united patterns / products (u = reduce(or_, .)) *)
+Theorem C16_reactor_wiring : forall (A : Type) (u : list A -> A) (patterns products : list A)
+    (delete_atoms one_shot : bool) (polymerise_limit : Z) (automorphism_filter fix_aromatic_rings fix_tautomers : bool),
+  wiring (g_reactor_super u patterns products delete_atoms one_shot polymerise_limit automorphism_filter fix_aromatic_rings fix_tautomers) =
+    (u products, (if fix_aromatic_rings then KekuleThenThiele fix_tautomers else OnlyFixStereo), (u patterns, u products, delete_atoms)).
+Proof. exact reactor_wiring. Qed.
+Print Assumptions C16_reactor_wiring.
+
+Theorem C16_wiring_example :
+  snd (fst (wiring (g_transformer_super (fun _ => 0) 1 2 true true true false false))) = KekuleThenThiele false /\
+  snd (fst (wiring (g_transformer_super (fun _ => 0) 1 2 true true false true false))) = OnlyFixStereo /\
+  g_to_delete [(1, false); (2, true); (3, false); (4, false)] [1; 9] true = [3; 4] /\
+  g_to_delete [(1, false); (2, true); (3, false)] [1] false = [].
+Proof. exact wiring_example. Qed.
+Print Assumptions C16_wiring_example.
+
+(* reactor.fix_mapping_overlap (whole body) and the number-collision remap of Reactor._single_stage, translated statement by
+   statement over the atom numbers of the molecules: equal to the hand-written models - the functions of C16_overlap_* and
+   C16_stage_* above - whenever the numbers inside one molecule are different (they are the keys of a dict) *)
+Theorem C16_translated_fix_mapping_overlap_is_model : forall structures,
+  Forall (@NoDup Z) structures -> g_fix_mapping_overlap structures = fix_mapping_overlap structures.
+Proof. exact g_fix_mapping_overlap_is_model. Qed.
+Print Assumptions C16_translated_fix_mapping_overlap_is_model.
+
+Theorem C16_translated_stage_remap_is_model : forall new ignored,
+  NoDup new -> g_stage_remap new ignored = stage_remap new ignored.
+Proof. exact g_stage_remap_is_model. Qed.
+Print Assumptions C16_translated_stage_remap_is_model.
+
+Theorem C16_translated_overlap_example :
+  g_fix_mapping_overlap [[1; 2; 3]; [2; 3; 9]] = Ok [[1; 2; 3]; [10; 11; 9]] /\
+  g_fix_mapping_overlap [[1; 2]] = Ok [[1; 2]] /\
+  g_fix_mapping_overlap [[1; 2]; []; [2]] = Ok [[1; 2]; []; [3]] /\
+  g_stage_remap [1; 2; 7; 8] [7; 8; 12] = Ok [1; 2; 13; 14] /\
+  g_stage_remap [1; 2] [7; 8] = Ok [1; 2].
+Proof. exact overlap_translated_example. Qed.
+Print Assumptions C16_translated_overlap_example.
